@@ -72,9 +72,9 @@ class ToolCase:
         return ap, ap
 
     def prepare_root(self, root):
-        os.makedirs(os.path.join(root, "data"))
-        os.makedirs(os.path.join(root, "work"))
-        os.makedirs(os.path.join(root, "out"))
+        os.makedirs(os.path.join(root, "data"), exist_ok=True)
+        os.makedirs(os.path.join(root, "work"), exist_ok=True)
+        os.makedirs(os.path.join(root, "out"), exist_ok=True)
         return self.materialise(root)
 
     def describe(self):
